@@ -91,9 +91,63 @@ def name_of(ident):
     return ident.replace('_', ' ')
 
 
+def normalise(d):
+    """units: reference unit first, then the others in ATTRIBUTE order (the order in which the macro sees them);
+    attr_order: for each attribute position the index of its unit in that list."""
+    for t in d['types']:
+        U = t['units']
+        O = t.get('attr_order') or list(range(len(U)))
+        isref = lambda u: bool((u.get('def') or {}).get('ref'))
+        N = [u for u in U if isref(u)] + [U[i] for i in O if not isref(U[i])]
+        t['attr_order'] = [next(k for k, x in enumerate(N) if x is U[i]) for i in O]
+        t['units'] = N
+    return d
+
+
 def load_declared(path):
     d = json.load(open(path, encoding='utf-8'))
-    return d
+    return normalise(d)
+
+
+def render_type(t, indent='    '):
+    """Rust text of one #[quantity] definition. Returns (lines, attr_descr) where attr_descr lists, per attribute
+    in source order, its kind and token kinds (I ident, S string, N number, C comma)."""
+    rname = t.get('rust', t['T'].split('.')[-1])
+    L = []
+    dv = t.get('derive')
+    if dv:
+        l = 'AmountT' if dv['l'] == 'Amount' else dv['l'].split('.')[-1]
+        r = 'AmountT' if dv['r'] == 'Amount' else dv['r'].split('.')[-1]
+        L.append(indent + "#[quantity(%s %s %s)]" % (l, dv['op'], r))
+    else:
+        L.append(indent + "#[quantity]")
+    attrs = []
+    for u in t['units']:
+        df = u.get('def')
+        args = [('I', u['w']), ('S', json.dumps(u['sym'], ensure_ascii=False))]
+        if u.get('pfx'):
+            args.append(('I', u['pfx']))
+        isref = bool(df and df.get('ref'))
+        if not isref and u.get('lit') is not None:
+            args.append(('N', u['lit']))
+        if u.get('doc') is not None:
+            args.append(('S', json.dumps(u['doc'], ensure_ascii=False)))
+        name = 'ref_unit' if isref else 'unit'
+        toks = []
+        for k, (kind, _) in enumerate(args):
+            if k:
+                toks.append('C')
+            toks.append(kind)
+        attrs.append({'a': name, 'toks': toks, 'text': indent + "#[%s(%s)]" % (name, ', '.join(a for _, a in args))})
+    order = t.get('attr_order') or list(range(len(attrs)))
+    descr = []
+    for i in order:
+        L.append(attrs[i]['text'])
+        descr.append({'a': attrs[i]['a'], 'toks': attrs[i]['toks']})
+    if t.get('doc'):
+        L.append(indent + "/// " + t['doc'])
+    L.append(indent + "pub struct %s {}" % rname)
+    return L, descr
 
 
 def tlc_declared(d):
@@ -151,7 +205,7 @@ def tlc_declared(d):
                 dd = {"kind": "comp", "n": n, "d": dn, "num": [tu(s) for s in df['num']], "den": [tu(s) for s in df['den']]}
             raw = json.dumps(df) if df else ''
             term = ('pi' not in raw) and is_term(resolve(t['T'], variant_of(u['w']))) if df else False
-            units.append({"w": u['w'], "term": term, "id": variant_of(u['w']), "const": const_of(u['w']),
+            units.append({"w": u['w'], "term": term, "w_cp": cps(u['w']), "id_cp": cps(variant_of(u['w'])), "const_cp": cps(const_of(u['w'])), "id": variant_of(u['w']), "const": const_of(u['w']),
                           "name": name_of(u['w']), "name_cp": cps(name_of(u['w'])),
                           "sym": u['sym'], "sym_cp": cps(u['sym']),
                           "pfx": u['pfx'] if u['pfx'] else "-", "def": dd,
